@@ -208,7 +208,7 @@ def run(tier: str, seed: int) -> int:
                     maximal = [k for k in keys if len(k) == 3]
                     step = 8
                 else:
-                    step = max(1, len(maximal) // 25000)          # 4-step behaviours: an even sample of <= 25000 per layout (all of them take hours)
+                    step = max(1, len(maximal) // 12000)          # 4-step behaviours: an even sample of <= 12000 per layout (all of them take hours)
                     chk.notes.setdefault("thorough_behaviours_total", []).append(len(maximal))
                 # expected abstract state after each prefix = the dumped state with that history
                 for idx in range(0, len(maximal), step):
